@@ -35,32 +35,42 @@ Definition cut_ok (fs : list (frame obj)) (k : Z) (objs : list obj) (oc : Z) : b
   (oc =? outcome_code (cut_outcome fs k)) && objs_eqb objs (objs_before fs k).
 
 (* all cuts lo, lo+1, ... (n of them) *)
-Fixpoint sweep (fs : list (frame obj)) (k : Z) (n : nat) (objs : list obj) (oc : Z) (j1 j2 : bool)
+(* the two offsets read once Scan has returned false (with or without an error): model only; what
+   they are after a failed scan is outside the property (modelled and observed, Framing/Model.v
+   end_offsets) *)
+Definition off_agrees (fs : list (frame obj)) (k : Z) (oc fsb pfsb : Z) : bool :=
+  if (oc =? 0) || (oc =? 1) then
+    let '(p, c) := end_offsets (scan current fs k) (scan_err_off current fs k) in
+    (p =? pfsb) && (c =? fsb)
+  else true.
+
+Fixpoint sweep (fs : list (frame obj)) (k : Z) (n : nat) (objs : list obj) (oc fsb pfsb : Z) (j1 j2 : bool)
   : bool * bool :=
   match n with
   | O => (j1, j2)
   | S n' =>
-      sweep fs (k + 1) n' objs oc
-            (j1 && agrees (scan current fs k) objs oc)
+      sweep fs (k + 1) n' objs oc fsb pfsb
+            (j1 && agrees (scan current fs k) objs oc && off_agrees fs k oc fsb pfsb)
             (j2 && cut_ok fs k objs oc)
   end.
 
-Definition prun : P (Z * Z * list obj * Z) :=
-  lo <- pint ;; hi <- pint ;; objs <- pobjs ;; oc <- pint ;; ret (lo, hi, objs, oc).
+Definition prun : P (Z * Z * list obj * Z * Z * Z) :=
+  lo <- pint ;; hi <- pint ;; objs <- pobjs ;; oc <- pint ;; fsb <- pint ;; pfsb <- pint ;;
+  ret (lo, hi, objs, oc, fsb, pfsb).
 
 (* runs must be lo_0 = 0, hi_i + 1 = lo_{i+1}, hi_last = total, lo <= hi *)
-Fixpoint partition_ok (next total : Z) (runs : list (Z * Z * list obj * Z)) : bool :=
+Fixpoint partition_ok (next total : Z) (runs : list (Z * Z * list obj * Z * Z * Z)) : bool :=
   match runs with
   | [] => next =? total + 1
-  | (lo, hi, _, _) :: r => (lo =? next) && (lo <=? hi) && partition_ok (hi + 1) total r
+  | (lo, hi, _, _, _, _) :: r => (lo =? next) && (lo <=? hi) && partition_ok (hi + 1) total r
   end.
 
-Fixpoint sweep_runs (fs : list (frame obj)) (runs : list (Z * Z * list obj * Z)) (j1 j2 : bool)
+Fixpoint sweep_runs (fs : list (frame obj)) (runs : list (Z * Z * list obj * Z * Z * Z)) (j1 j2 : bool)
   : bool * bool :=
   match runs with
   | [] => (j1, j2)
-  | (lo, hi, objs, oc) :: r =>
-      let '(a, b) := sweep fs lo (Z.to_nat (hi - lo + 1)) objs oc j1 j2 in
+  | (lo, hi, objs, oc, fsb, pfsb) :: r =>
+      let '(a, b) := sweep fs lo (Z.to_nat (hi - lo + 1)) objs oc fsb pfsb j1 j2 in
       sweep_runs fs r a b
   end.
 
@@ -69,8 +79,9 @@ Definition check_trunc : P (list Z) :=
   let '(j1, j2) := sweep_runs fs runs true true in
   ret (code_if j1 1 ++ code_if j2 2 ++ code_if (partition_ok 0 (total_size fs) runs) 3)%list.
 
-Definition pobs : P (Z * list obj * Z) :=
-  procs <- pint ;; objs <- pobjs ;; oc <- pint ;; ret (procs, objs, oc).
+Definition pobs : P (Z * list obj * Z * Z * Z) :=
+  procs <- pint ;; objs <- pobjs ;; oc <- pint ;; fsb <- pint ;; pfsb <- pint ;;
+  ret (procs, objs, oc, fsb, pfsb).
 
 (* the layer-L1 model of the block decoder run on the damaged block's tree: it must say Err *)
 Definition l1_err (t : Verif.Pbf.Tree.msg) : bool :=
@@ -85,7 +96,7 @@ Definition check_damage : P (list Z) :=
   j4 <- (if has_tree then (t <- Verif.Pbf.CheckLib.ptree ;; ret (l1_err t)) else ret true) ;;
   let r := scan current fs (total_size fs) in
   let expected := objs_of (firstn di fs) in
-  let j1 := forallb (fun '(_, objs, oc) => agrees r objs oc) obs in
+  let j1 := forallb (fun '(_, objs, oc, fsb, pfsb) => agrees r objs oc && off_agrees fs (total_size fs) oc fsb pfsb) obs in
   let good := firstn di fs in
   (* the case lies in the domain of theorem C06_damage_detected: intact frames before, one of the
      enumerated damage classes at frame di *)
@@ -96,7 +107,7 @@ Definition check_damage : P (list Z) :=
                           (total_size fs - total_size good)
     | None => false
     end in
-  let j2 := forallb (fun '(_, objs, oc) => (oc =? 1) && objs_eqb objs expected) obs
+  let j2 := forallb (fun '(_, objs, oc, _, _) => (oc =? 1) && objs_eqb objs expected) obs
             && in_domain && negb (Nat.eqb (length obs) 0) in
   ret (code_if j1 1 ++ code_if j2 2 ++ code_if j4 4)%list.
 
@@ -105,8 +116,8 @@ Definition check_damage : P (list Z) :=
 Definition check_whole : P (list Z) :=
   fs <- pframes ;; obs <- plist pobs ;;
   let r := scan current fs (total_size fs) in
-  let j1 := forallb (fun '(_, objs, oc) => agrees r objs oc) obs in
-  let j2 := forallb (fun '(_, objs, oc) => (oc =? 0) && objs_eqb objs (objs_of fs)) obs
+  let j1 := forallb (fun '(_, objs, oc, fsb, pfsb) => agrees r objs oc && off_agrees fs (total_size fs) oc fsb pfsb) obs in
+  let j2 := forallb (fun '(_, objs, oc, _, _) => (oc =? 0) && objs_eqb objs (objs_of fs)) obs
             && valid_file fs && negb (Nat.eqb (length obs) 0) in
   ret (code_if j1 1 ++ code_if j2 2)%list.
 
@@ -122,8 +133,8 @@ Definition check_skipdmg : P (list Z) :=
   sn <- pbool ;; sw <- pbool ;; sr <- pbool ;;
   fs <- pframes ;; di <- pnat ;; obs <- plist pobs ;; t <- Verif.Pbf.CheckLib.ptree ;;
   let r := scan current fs (total_size fs) in
-  let j1 := forallb (fun '(_, objs, oc) => agrees r objs oc) obs in
-  let j2 := forallb (fun '(_, objs, oc) => (oc =? 0) && objs_eqb objs (objs_of fs)) obs
+  let j1 := forallb (fun '(_, objs, oc, fsb, pfsb) => agrees r objs oc && off_agrees fs (total_size fs) oc fsb pfsb) obs in
+  let j2 := forallb (fun '(_, objs, oc, _, _) => (oc =? 0) && objs_eqb objs (objs_of fs)) obs
             && valid_file fs && negb (Nat.eqb (length obs) 0) && (sn || sw || sr) in
   let j4 := l1_err t &&
             match Verif.Pbf.Model.scan_result (cfg_skip sn sw sr) Verif.Pbf.Model.dstate0 t, nth_error fs di with
@@ -226,8 +237,8 @@ Definition check_trailer : P (list Z) :=
               ++ skipn (S di) fs)%list in
   let strict := scan current fs total in
   let lenient := scan current fs' total in
-  let j1 := forallb (fun '(_, objs, oc) => agrees strict objs oc || agrees lenient objs oc) obs in
-  let j2 := forallb (fun '(_, objs, oc) =>
+  let j1 := forallb (fun '(_, objs, oc, _, _) => agrees strict objs oc || agrees lenient objs oc) obs in
+  let j2 := forallb (fun '(_, objs, oc, _, _) =>
                        ((oc =? 1) && objs_eqb objs (objs_of (firstn di fs)))
                        || ((oc =? 0) && objs_eqb objs (objs_of fs'))) obs
             && valid_file fs' && negb (Nat.eqb (length obs) 0) in
